@@ -1401,10 +1401,59 @@ func runC20(e *Env) error {
 			o.vi = -1
 		}
 	}
+	c20ReceiverResults(e)
 	r.Note(fmt.Sprintf("%d lookups, %d distinct (struct type, name) pairs through the cache (maxSize 1000), %d generated types", c.lookup, len(c.pairs), gen))
 	if len(c.pairs) <= 1000 {
 		r.Violate(Violation{Key: "harness-weak", What: "fewer than 1001 distinct pairs: eviction never ran", Broken: "C20 harness coverage",
 			Replay: map[string]any{"pairs": len(c.pairs)}})
 	}
 	return nil
+}
+
+// Results that point INTO the receiver of a pointer-receiver method called on a struct value (the engine calls such a
+// method on an addressable copy): a result kept in a variable must keep showing ITS value's data after the same method
+// was looked up on other values of the type (seeded change C20-G: one receiver copy per render context).
+type c20Stats struct {
+	Population int
+	Mayor      string
+	Tags       []string
+}
+type c20City struct {
+	Name  string
+	stats c20Stats
+	arr   [3]int
+}
+
+func (c *c20City) Stats() *c20Stats { return &c.stats }
+func (c *c20City) Nums() []int      { return c.arr[:] }
+func (c *c20City) Self() *c20City   { return c }
+func (c c20City) Label() string     { return "city " + c.Name }
+
+func c20ReceiverResults(e *Env) {
+	r := e.Rep
+	data := map[string]interface{}{
+		"paris": c20City{Name: "Paris", stats: c20Stats{2100000, "Anne", []string{"fr"}}, arr: [3]int{1, 2, 3}},
+		"rome":  c20City{Name: "Rome", stats: c20Stats{2800000, "Roberto", []string{"it"}}, arr: [3]int{7, 8, 9}},
+		"oslo":  &c20City{Name: "Oslo", stats: c20Stats{700000, "Anne-L", []string{"no"}}, arr: [3]int{4, 5, 6}},
+	}
+	cases := []struct{ src, want string }{
+		{"{% set p = paris.Stats %}{{ p.Population }},{{ p.Mayor }}|{{ rome.Stats.Population }},{{ rome.Name }}|{{ p.Population }},{{ p.Mayor }}|{{ oslo.Stats.Mayor }}|{{ p.Mayor }}", "2100000,Anne|2800000,Rome|2100000,Anne|Anne-L|Anne"},
+		{"{% set a = paris.Nums %}{% set b = rome.Nums %}{% set c = oslo.Nums %}{{ a|join(',') }}|{{ b|join(',') }}|{{ c|join(',') }}|{{ a|join(',') }}", "1,2,3|7,8,9|4,5,6|1,2,3"},
+		{"{% set s = paris.Self %}{{ rome.Self.Name }}{{ oslo.Self.Name }}|{{ s.Name }}|{{ s.Stats.Mayor }}|{{ rome.Label }}|{{ s.Label }}", "RomeOslo|Paris|Anne|city Rome|city Paris"},
+		{"{% for c in [paris, rome, oslo] %}{% set st = c.Stats %}{% for d in [rome, oslo, paris] %}{{ d.Stats.Population > 0 ? '' : 'x' }}{% endfor %}{{ st.Mayor }};{% endfor %}", "Anne;Roberto;Anne-L;"},
+		{"{% set t = paris.Stats.Tags %}{{ rome.Stats.Tags|first }}{{ t|first }}{{ oslo.Stats.Tags|first }}{{ t|first }}", "itfrnofr"},
+	}
+	for i, c := range cases {
+		for rep := 0; rep < 3; rep++ {
+			res := renderSrc(c.src, data)
+			r.Seen(fmt.Sprintf("receiver-result:%d:%d", i, rep), true)
+			r.Hit("receiver-results")
+			if res.Class != "" || res.Out != c.want {
+				r.Violate(Violation{Key: "attr-history-dependent", What: fmt.Sprintf("%s renders %q (%s), expected %q: a value obtained from one object changed when the same attribute was looked up on another", c.src, res.Out, res.Class, c.want),
+					Broken: "theorem C20_lookup_independent_of_history (implementation-only oracle: results of pointer-receiver methods on values)",
+					Replay: map[string]any{"kind": "src", "src": c.src, "want": c.want, "got": res.Out, "class": res.Class}})
+				break
+			}
+		}
+	}
 }
